@@ -172,6 +172,17 @@ fn defs() -> Vec<Def> {
     ] {
         v.push(Def { text: f.to_string(), kind: "func" });
     }
+    // simple commands whose *name* is a reserved word (legal after a redirection or an assignment):
+    // the listing must not move the word to the front, where it would be read as the keyword
+    {
+        const KW: [&str; 18] = ["if", "then", "else", "elif", "fi", "do", "done", "case", "esac", "while", "until", "for", "{", "}", "!", "in", "function", "[["];
+        let redir: String = KW.iter().map(|k| format!(">/dev/null {k}; ")).collect();
+        let assign: String = KW.iter().map(|k| format!("x=1 {k} a; ")).collect();
+        let both: String = KW.iter().map(|k| format!("x=1 2>&1 {k} <&- b; ")).collect();
+        v.push(Def { text: format!("kr() {{ {redir}}}"), kind: "func" });
+        v.push(Def { text: format!("ka() {{ {assign}}}"), kind: "func" });
+        v.push(Def { text: format!("kb() {{ if s 0; then {both}fi; }}"), kind: "func" });
+    }
     // functions whose names need care in a listing: reserved words, blanks, pattern characters
     for f in ["\\if() { p kw; }", "\\done() { p kw2; }", "\"a b\"() { p sp; }", "'f*'() { p st; }", "f\\$x() { p dl; }"] {
         v.push(Def { text: f.to_string(), kind: "func" });
